@@ -312,7 +312,9 @@ LEVEL_TEXT = ("Proved in Coq: for every code-point string the lexer model (over 
               "open bracket is rejected outside the '<' '>' tolerance (mismatch_rejected); a stray '}' at the root and an access specifier "
               "outside a class stop the block machine and nothing is delivered afterwards; the try/except wrapper shape is three recomputed "
               "AST facts (wrapper_total). Search: mutated/truncated/random inputs must yield a result or CxxParseError with a sane "
-              "file:line prefix; %d rule-breaking constructs x %d block contexts must be rejected." % (len(BREAKERS), len(CONTEXTS)))
+              "file:line prefix; %d rule-breaking constructs x %d block contexts must be rejected. On the keyword handlers as translated from "
+              "the code on every run (Gen/Dispatch.v): `friend` outside a class body and a linkage specification / extern template inside "
+              "one are parse errors (friend_outside_a_class_rejected, linkage_specification_in_a_class_rejected)." % (len(BREAKERS), len(CONTEXTS)))
 LEVEL_NOTE = ("Trusted: Coq kernel, translator, extraction, driver, harness. 'No other exception type ever escapes' is established by search "
               "only (parser bulk un-modelled). Specifier rules (ParsedTypeModifiers.validate) are searched, not modelled.")
 TECHNIQUE = "Coq proofs (lexer totality, first-set analysis, rejection lemmas on regenerated rules and machines) + AST facts + mutation/truncation/rule-breaker search"
